@@ -59,6 +59,43 @@ CLAIMS = {
             "DESIGN.md §3 C07"),
 }
 
+ITS_NOTE = ("The ITS theorems are about the world-level model (Axelar/Model/ItsWorld.lean: the service, its calls into gateway, gas service and token managers, "
+            "with failure = none); asynchronous steps are separate transitions whose order the schedule chooses. Parts of the property that are proved only "
+            "at component level (not end-to-end over all histories) are named *_partial in the Props file and are decided on the implementation by the Lean judge "
+            "over generated schedules. Trusted: Lean kernel, hand-written model (tied to /repo by differential execution of the real ITS, token-manager, gateway "
+            "and gas-service crates in the Rust VM, by the regenerated endpoint table and constants), harness (holds back promises / legacy async calls and "
+            "delivers them step by step), debug VM incl. ESDT system-contract stand-ins for issue / getTokenProperties chosen by the schedule.")
+
+CLAIMS.update({
+    "C04": ("Lean 4 theorems: a release of tokens by processInterchainTransfer (no data) implies a true validateMessage for exactly (source chain, id, source address, payload hash) addressed to the service, which executes the approval (gateway lifecycle theorems of C02 give at-most-once); execute refuses untrusted sources; unknown token id / malformed recipient / unknown message type fail; differential run of the real ITS+gateway+token manager vs the compiled model + Lean judge on every inbound execute",
+            "Machine-checked proofs for all states, callers and payloads of the gating of an inbound release on gateway validation and trusted source, and of the failure cases; at-most-once follows from the proved gateway life cycle (C02) because validation consumes the approval. The real contracts are run against the model on approved / unapproved / replayed / wrong-source / unknown-token / malformed messages, hub-wrapped and direct, and judged by the property (recipient balance delta = payload amount, message executed, replays fail).",
+            ITS_NOTE, "DESIGN.md §3 C04"),
+    "C05": ("Lean 4 theorems: get_transfer_and_gas_tokens returns exactly the three shapes of the property and conserves value (transfer + gas = attached); transmit refuses zero amount / empty destination / untrusted chain; the emitted payload is the ABI encoding of exactly (type, token id, sender, destination, amount, data) (round trip by C06/C07); differential run (all balances compared after every step) + Lean judge on every outbound transfer of the real ITS",
+            "Machine-checked proofs of the payment split (all payment lists, all gas values), of the refusal cases and of the payload contents; conservation across sender / token manager / gas service / service is decided on the real contracts by comparing every account's balances with the model after each operation and by the judge (sender delta = payments, custody or burn = transfer amount, one contract_call event with the payload hash, gas forwarded with sender as refund address, service balances unchanged).",
+            ITS_NOTE, "DESIGN.md §3 C05"),
+    "C08": ("Lean 4 theorems: a locked (in-flight) message cannot start another delivery; exact shape of the success and failure callbacks; REFUTATION: if the token manager rejects the take-back (flow limit) the failure callback fails and the tokens stay in the service (finding F1), with the part that holds proved as _partial; differential run with execute / destination call / callback scheduled separately among other transactions + Lean judge on the real contracts",
+            "Machine-checked proofs of the single-shot lock and of the callback effects for all states; the full-strength 'never left behind in the service' is false on the unchanged code (known finding F1: flow-limit rejection of the take-back, replayed on the real contracts from corpus/C08 on every run). The real ITS, gateway and token manager are driven through all three steps with other transactions (including second executes of the same message, flow-limit changes, pauses) in between and judged on deliveries, custody and message state.",
+            ITS_NOTE, "DESIGN.md §3 C08, §4 F1"),
+    "C13": ("Lean 4 theorems over every trusted-address table and payload: get_execute_params unwraps only RECEIVE_FROM_HUB from the hub chain naming a hub-routed original chain and rejects direct messages from the hub chain; get_call_params sends to the trusted address, wraps for hub-routed chains to the hub's trusted address, refuses missing trust and the hub chain as destination; is_trusted_address characterisation; hub constants; differential run + judge on the real ITS",
+            "Machine-checked proofs of the complete decision logic of inbound and outbound routing for all tables, chains, addresses and payloads; the real service is run against the model on trusted / untrusted / removed chains, hub-routed and direct, wrapped and non-wrapped payloads, and judged by the routing rules on every accepted inbound message and every emitted gateway call.",
+            ITS_NOTE, "DESIGN.md §3 C13"),
+    "C14": ("Lean 4 theorems: the three id derivations are the published hash shapes with the published prefixes (regenerated constants), depend only on (kind, chain-name hash, deployer, salt / token), bind their inputs (collision-or-equal), and are domain-separated between kinds; deploy_token_manager_raw refuses a token id that already has a manager and records exactly the manager created with the requested type/token/operator; init records its arguments; custom registration forbids the native type; differential run + judge on the real ITS",
+            "Machine-checked proofs (for every hash function) of determinism, binding and domain separation of token ids, and that a token id gets at most one manager which is never replaced; the real service is run against the model (executable Keccak-256) so every id and every manager address the implementation computes is compared, including registrations by different deployers with equal salts.",
+            ITS_NOTE, "DESIGN.md §3 C14"),
+    "C17": ("Lean 4 theorems: both getTokenProperties callbacks return the whole gas value to the original caller when the query failed or the token is not fungible; exact refund; REFUTATION: when the callback itself fails (hub / route removed in between, or payload refused) the gas value stays in the service (finding F2, two call sites), with the part that holds proved as _partial; differential run with the callbacks scheduled separately + Lean judge 'service holds nothing of the user value after the last step' on the real contracts",
+            "Machine-checked proofs of the refund and forward branches of the two asynchronous flows that carry user EGLD, and proofs that on the unchanged code a failing callback strands that EGLD (known findings F2a/F2b, replayed on the real contracts from corpus/C17 on every run). All user operations of the real service are run to completion under generated schedules and the service's balances are compared with their values before the operation.",
+            ITS_NOTE, "DESIGN.md §3 C17, §4 F2"),
+    "C18": ("Lean 4 theorems: a token manager's recorded token survives every endpoint call and every later issuance callback (after fix aeb366e); the issuance callback records exactly the returned identifier or nothing; step 1 of an inbound deploy message only reads the approval (gateway state unchanged) ; zero-supply deployment without minter, or with the service as minter, is refused; differential run with issue calls / callbacks scheduled separately + Lean judge on the real ITS and token manager",
+            "Machine-checked proofs of 'never replaced' over a complete case analysis of the token-manager endpoints and its callback, of the two-step use of the gateway approval, and of the refusal cases; the two-issuances-in-flight defect found by this check (F4) was repaired in /repo (fix: aeb366e) and its witness corpus/C18 runs first on every run. The real contracts are driven through the multi-call deployment flows (inbound and local) with system-contract outcomes chosen by the schedule and judged on approvals consumed, tokens recorded, supply minted and roles handed over.",
+            ITS_NOTE, "DESIGN.md §3 C18, §4 F4"),
+    "C19": ("Lean 4 theorems: use_deploy_approval succeeds iff an approval is present for exactly (minter, token id, destination chain) and equals the hash of the requested destination minter, and then clears it (single use); approval-key binding (collision-or-equal); revoke clears only the caller's own key; differential run + Lean judge on approve / revoke / deployRemote…WithMinter of the real ITS",
+            "Machine-checked proofs for all states of the exactness and single use of destination-minter approvals and of key binding; the real service is run against the model over approve / revoke / deploy sequences by minters, former minters, non-minters and the service address, with matching and non-matching chains and minters, and judged by the rules of the property.",
+            ITS_NOTE, "DESIGN.md §3 C19"),
+    "C20": ("Lean 4 theorems: every pausable entry point of the model fails when paused (no state, no value, no events); sub-calls never touch the service's own storage; proof obligations over the table regenerated from the source on every run: every pausable endpoint reaches require_not_paused before any state change or external call, privileged endpoints carry only_owner / only_operator; differential run with pause / unpause interleaved + Lean judge on the real ITS",
+            "Machine-checked proofs of pause effectiveness for each pausable flow of the model plus proof obligations discharged over the endpoint table that tools/extract.py regenerates from interchain-token-service/src on every run (so moving or dropping a pause check breaks the build); two ungated flows found by this check (F5, F6) were repaired in /repo (fix: 7a3e60f, b8528bf). The real service is run against the model with pauses placed between the steps of multi-call flows and with non-owner / non-operator callers of the privileged operations.",
+            ITS_NOTE, "DESIGN.md §3 C20, §4 F5/F6"),
+})
+
 NOT_YET = "check not yet built in this session (model/harness under construction, see DESIGN.md §6); not claimed until its proof and correspondence run"
 
 
